@@ -136,9 +136,12 @@ def gen_fit(rng, family):
         raise ValueError(family)
     warm = rng.choice([0, 0, 1, 2])
     J = rng.choice([1, 1, 2, 3])
+    multi_stage = family in ("deep", "deep3", "cross-ok", "cross-stage-concat-order", "entry-readout")
     if family == "deep3":
         J = 1
-    lens = [warm + rng.randint(2, 3 if family == "deep3" else 5) for _ in range(J)]
+    elif multi_stage:
+        J = min(J, 2)     # exact rationals through chained ridge solutions grow with the number of timesteps
+    lens = [warm + rng.randint(2, 3 if multi_stage else 5) for _ in range(J)]
     X = [rows(rng, T, d) for T in lens]
     ridges = [n["id"] for n in nodes if n["kind"] == "ridge"]
     ymode = rng.choice(["array", "mapping"])
